@@ -591,10 +591,17 @@ fn crate_tables(tcx: TyCtxt<'_>) -> (J, J) {
                 }
                 o.push(("preds".into(), J::Arr(ps)));
                 let mut items = Vec::new();
+                let mut assoc_tys = Vec::new();
                 for it in tcx.associated_item_def_ids(did) {
                     items.push(s(tcx.item_name(*it).to_string()));
+                    if matches!(tcx.def_kind(*it), DefKind::AssocTy) {
+                        // `type End = SendEnd;` of a trait impl: the binding a strategy type is selected through
+                        let t = tcx.type_of(*it).instantiate_identity().skip_norm_wip();
+                        assoc_tys.push((tcx.item_name(*it).to_string(), s(ty_str(t))));
+                    }
                 }
                 o.push(("items".into(), J::Arr(items)));
+                o.push(("assoc_tys".into(), J::Obj(assoc_tys)));
                 impls.push(J::Obj(o));
             }
             _ => {}
